@@ -380,13 +380,13 @@ func keysOf(m map[int]string) []int {
 func TestRaw(t *testing.T) {
 	E = newEnv(t)
 	if vt.ReplayPath() == "" {
-		// fixed reproducers of the listed finding: re-observed on every run
+		// fixed reproducers of the repaired errorHandler defect: regression probes, a recurrence is a violation
 		probes := knownProbes()
 		for _, name := range pview.SortedKeys(probes) {
 			s := probes[name]
 			nt, key, f := runRaw(s)
 			cRaw.Eval(nt, key)
-			if f != nil { // (a listed finding went through Soft inside the interpreter and is not returned)
+			if f != nil {
 				cRaw.Violation(f, s)
 				t.Fatalf("%s: %v", name, f)
 			}
